@@ -31,8 +31,53 @@ pub struct Doc {
 pub fn esc_attr(v: &str) -> String {
     v.replace('&', "&amp;").replace('<', "&lt;").replace('"', "&quot;")
 }
+/// `\u{E000}name\u{E001}` inside a text stands for the entity reference `&name;` (written unescaped): references to
+/// entities the reader does not know are well-formed XML and still character data
+pub const ENT_OPEN: char = '\u{E000}';
+pub const ENT_CLOSE: char = '\u{E001}';
+
 pub fn esc_text(v: &str) -> String {
-    v.replace('&', "&amp;").replace('<', "&lt;").replace('>', "&gt;")
+    v.replace('&', "&amp;").replace('<', "&lt;").replace('>', "&gt;").replace(ENT_OPEN, "&").replace(ENT_CLOSE, ";")
+}
+
+/// the inverse for documents read back from text: `&name;` other than the predefined five becomes the marker form
+pub fn mark_entities(s: &str) -> String {
+    let mut out = String::new();
+    let cs: Vec<char> = s.chars().collect();
+    let mut i = 0;
+    while i < cs.len() {
+        if cs[i] == '&' {
+            if let Some(len) = cs[i + 1..].iter().position(|c| *c == ';') {
+                let name: String = cs[i + 1..i + 1 + len].iter().collect();
+                let plain = !name.is_empty() && name.chars().all(|c| c.is_ascii_alphanumeric());
+                if plain && !matches!(name.as_str(), "lt" | "gt" | "amp" | "quot" | "apos") {
+                    out.push(ENT_OPEN);
+                    out.push_str(&name);
+                    out.push(ENT_CLOSE);
+                    i += len + 2;
+                    continue;
+                }
+            }
+        }
+        out.push(cs[i]);
+        i += 1;
+    }
+    out
+}
+
+/// replace entity markers by plain characters (documents that are also fed to a deserializer)
+pub fn strip_entity_markers(n: &mut Node) {
+    for it in n.items.iter_mut() {
+        match it {
+            Item::Text(t) => {
+                if t.contains(ENT_OPEN) {
+                    *t = t.replace(ENT_OPEN, "e").replace(ENT_CLOSE, "e");
+                }
+            }
+            Item::Elem(c) => strip_entity_markers(c),
+            _ => {}
+        }
+    }
 }
 
 pub fn write_item(it: &Item, out: &mut String) {
